@@ -1,5 +1,6 @@
 (* Proofs/ShippedMain.v — the declarative theorems transported to the DUMPED specification, the
    example document showing the hypotheses are satisfiable, and the refutation witnesses. *)
+From PV Require Import Proofs.TypeCheckSound.
 From PV Require Import Spec.PageTreeSpec gen.Shipped Model.ShippedEntry
   Proofs.ShippedFacts Proofs.ShippedApprox Proofs.ShippedKinds Proofs.ShippedAccept Proofs.ShippedReject.
 
@@ -11,10 +12,61 @@ Proof.
 Qed.
 
 Theorem shipped_rejects d m :
-  wf_doc d -> mutation d m -> ~ conforms shipped_opq (fst m) shipped_tctx (snd m) shipped_root.
+  wf_doc d -> mutation true d m -> ~ conforms shipped_opq (fst m) shipped_tctx (snd m) shipped_root.
 Proof.
   intros Hwf Hm. rewrite shipped_root_is_spec, shipped_tctx_is_spec. unfold shipped_opq.
   apply (spec_rejects shipped_nd d m); assumption.
+Qed.
+
+(* the violations the library can see are among all violations *)
+Lemma node_violation_weaken oc r ks e : node_violation false oc r ks e -> node_violation true oc r ks e.
+Proof.
+  intros H. destruct H; try discriminate;
+    [apply NV_drop_type|apply NV_drop_count|apply NV_drop_kids|apply NV_type|apply NV_count|apply NV_kids_type
+    |apply NV_kid_direct|apply NV_kid_dangling|apply NV_root_parent|apply NV_drop_parent]; assumption.
+Qed.
+Lemma leaf_violation_weaken oc b e : leaf_violation false oc b e -> leaf_violation true oc b e.
+Proof.
+  intros H. destruct H; try discriminate;
+    [apply LV_drop_type|apply LV_type; assumption|apply LV_drop_parent; assumption|apply LV_template_parent; assumption
+    |eapply LV_value; eauto].
+Qed.
+Lemma cat_violation_weaken oc e : cat_violation false oc e -> cat_violation true oc e.
+Proof.
+  intros H. destruct H;
+    [apply CV_drop_type|apply CV_drop_pages|apply CV_type; assumption|apply CV_pages; assumption
+    |eapply CV_value; eauto|eapply CV_indirect; eauto].
+Qed.
+Lemma mutation_weaken d m : mutation false d m -> mutation true d m.
+Proof.
+  intros H. destruct H;
+    [apply M_cat|apply M_root|eapply M_node|eapply M_page|eapply M_template];
+    eauto using node_violation_weaken, leaf_violation_weaken, cat_violation_weaken.
+Qed.
+
+(* ---------- transfer to the checker (C08: Proofs/TypeCheckSound.v) ---------- *)
+Definition spec_rep : rep := (TDict catalog_ents None, None, IAllowed).
+Lemma spec_resolve : resolve spec_tctx spec_catalog = Some spec_rep. Proof. reflexivity. Qed.
+Lemma spec_norm : norm_chk (rep_chk spec_rep) = spec_catalog. Proof. vm_compute. reflexivity. Qed.
+Lemma spec_wf_univ : wf_univ spec_tctx spec_catalog = true. Proof. vm_compute. reflexivity. Qed.
+
+Theorem shipped_check_accepts d : wf_doc d -> shipped_check (emit_ctx d) (emit_root d) = Accept.
+Proof.
+  intros Hwf. unfold shipped_check. rewrite shipped_root_is_spec, shipped_tctx_is_spec.
+  apply (conforms_check_accept _ _ _ _ _ spec_rep spec_resolve); rewrite spec_norm.
+  - exact spec_wf_univ.
+  - apply spec_accepts. exact Hwf.
+Qed.
+
+Theorem shipped_check_rejects d m :
+  wf_doc d -> mutation false d m -> exists e, shipped_check (fst m) (snd m) = Reject e.
+Proof.
+  intros Hwf Hm. unfold shipped_check. rewrite shipped_root_is_spec, shipped_tctx_is_spec.
+  assert (WF : wf_univ spec_tctx (norm_chk (rep_chk spec_rep)) = true) by (rewrite spec_norm; exact spec_wf_univ).
+  destruct (check_verdict_wf shipped_opq (fst m) spec_tctx (snd m) spec_catalog spec_rep spec_resolve WF) as [Ha|Hr];
+    [|exact Hr].
+  exfalso. apply (check_accept_iff_conforms_skip _ _ _ _ _ spec_rep spec_resolve WF) in Ha.
+  rewrite spec_norm in Ha. exact (spec_rejects_skip shipped_nd d m Hwf Hm Ha).
 Qed.
 
 (* ---------- an example: a catalog with a two-level page tree ---------- *)
@@ -34,44 +86,49 @@ Definition ex_doc : doc :=
                  a_extra := [] |} |}.
 
 Ltac nodup := repeat (constructor; [simpl; intuition discriminate|]); constructor.
-Ltac in_cases H := simpl in H; repeat (destruct H as [H|H]; [try (inversion H; subst; clear H)|]); try contradiction.
+Ltac in_cases H := simpl in H; repeat (destruct H as [H|H]; [try subst; try (inversion H; subst; clear H)|]); try contradiction.
+Ltac in_tac := vm_compute; repeat (first [left; reflexivity | right]).
+Ltac attrs_ok_tac :=
+  unfold attrs_ok; split;
+  [ apply nodupb_NoDup; vm_compute; reflexivity
+  | split;
+    [ let k := fresh "k" in let Hk := fresh "Hk" in
+      intros k Hk; in_cases Hk; vm_compute; intuition discriminate
+    | split;
+      [ let k := fresh "k" in let v := fresh "v" in let Hk := fresh "Hk" in
+        intros k v Hk; in_cases Hk; vm_compute; intuition discriminate
+      | let k := fresh "k" in let kd := fresh "kd" in let x := fresh "x" in let Hx := fresh "Hx" in
+        intros k kd x Hx; in_cases Hx;
+        (split; [in_tac | split; [reflexivity | split; [vm_compute; reflexivity |
+           first [ let H := fresh "H" in intros H; vm_compute in H; discriminate H
+                 | intros _; eexists; eexists; reflexivity ]]]]) ]]].
 
 Lemma ex_wf : wf_doc ex_doc.
 Proof.
-  split; [|split; [|split]].
+  unfold wf_doc. split; [|split; [|split]].
   - vm_compute. nodup.
   - split; [constructor|]. intros k [].
-  - repeat constructor.
-    + (* the page *)
-      nodup.
-    + intros k Hk. in_cases Hk; simpl; intuition discriminate.
-    + intros k v Hk. in_cases Hk. vm_compute. intuition discriminate.
-    + intros k kd x Hx. in_cases Hx; (split; [vm_compute; tauto|split; [reflexivity|split; [vm_compute; reflexivity|]]]);
-        try discriminate.
-    + (* the inner node *)
-      nodup.
-    + intros k Hk. in_cases Hk. simpl. intuition discriminate.
-    + nodup.
-    + intros k Hk. in_cases Hk; simpl; intuition discriminate.
-    + intros k v [].
-    + intros k kd x Hx. in_cases Hx. split; [vm_compute; tauto|split; [reflexivity|split; [vm_compute; reflexivity|]]].
-      discriminate.
-  - split; [|split; [|split]].
-    + nodup.
-    + intros k Hk. in_cases Hk; simpl; intuition discriminate.
-    + intros k v [].
-    + intros k kd x Hx. in_cases Hx; (split; [vm_compute; tauto|split; [reflexivity|split; [vm_compute; reflexivity|]]]);
-        try discriminate.
-      intros _. eexists. eexists. reflexivity.
+  - constructor; [|constructor; [|constructor]].
+    + change (attrs_ok (emit_ctx ex_doc) page_table [k_Type; k_Parent; k_Count]
+                (match ex_page with KPage _ a => a | _ => {| a_opts := []; a_extra := [] |} end)).
+      cbn [ex_page]. attrs_ok_tac.
+    + apply kid_ok_node. split.
+      * split; [apply nodupb_NoDup; vm_compute; reflexivity|].
+        intros k Hk. in_cases Hk. vm_compute. intuition discriminate.
+      * constructor; [|constructor].
+        change (attrs_ok (emit_ctx ex_doc) template_table [k_Type; k_Parent; k_Count]
+                  (match ex_template with KTemplate _ a => a | _ => {| a_opts := []; a_extra := [] |} end)).
+        cbn [ex_template]. attrs_ok_tac.
+  - cbn [d_cat ex_doc]. attrs_ok_tac.
 Qed.
 
 (* the page with a three-number /MediaBox: a mutation in the sense of the Spec *)
 Definition ex_edit : edit := ESet (B "MediaBox") (OArr [OInt 0; OInt 0; OInt 612]).
-Lemma ex_mutation : mutation ex_doc (ctx_edit (2, 0)%N ex_edit (emit_ctx ex_doc), emit_root ex_doc).
+Lemma ex_mutation : mutation false ex_doc (ctx_edit (2, 0)%N ex_edit (emit_ctx ex_doc), emit_root ex_doc).
 Proof.
-  apply (M_page ex_doc (1, 0)%N (2, 0)%N _ ex_edit).
+  eapply (M_page false ex_doc (1, 0)%N (2, 0)%N).
   - left. reflexivity.
-  - apply (LV_value _ true (B "MediaBox") VRect); [vm_compute; tauto|reflexivity|vm_compute; reflexivity].
+  - apply (LV_value false _ true (B "MediaBox") VRect); [right; reflexivity|in_tac|reflexivity|vm_compute; reflexivity].
 Qed.
 
 (* the checker model on the example, by computation: accepted; the mutated one, an embedded kid and a
@@ -80,7 +137,7 @@ Definition ex_direct_kid : edit :=
   ESet k_Kids (OArr [kid_obj (1, 0)%N ex_page; oref (3, 0)%N]).
 Lemma ex_checked :
   shipped_check (emit_ctx ex_doc) (emit_root ex_doc) = Accept
-  /\ shipped_check (ctx_edit (2, 0)%N ex_edit (emit_ctx ex_doc)) (emit_root ex_doc) = Reject ESize
+  /\ (exists e, shipped_check (ctx_edit (2, 0)%N ex_edit (emit_ctx ex_doc)) (emit_root ex_doc) = Reject e)
   /\ (exists e, shipped_check (ctx_edit (1, 0)%N ex_direct_kid (emit_ctx ex_doc)) (emit_root ex_doc) = Reject e)
   /\ (exists e, shipped_check (ctx_edit (2, 0)%N (ESet k_Type (OName (B "Catalog"))) (emit_ctx ex_doc))
                               (emit_root ex_doc) = Reject e).
@@ -93,23 +150,23 @@ Proof. vm_compute. repeat split; eexists; reflexivity. Qed.
    semantics rejects them, the checker model accepts them. *)
 Definition ex_parent_array : edit := ESet k_Parent (OArr [oref (1, 0)%N]).
 Lemma any_typed_entries_unchecked :
-  mutation ex_doc (ctx_edit (2, 0)%N ex_parent_array (emit_ctx ex_doc), emit_root ex_doc)
+  mutation true ex_doc (ctx_edit (2, 0)%N ex_parent_array (emit_ctx ex_doc), emit_root ex_doc)
   /\ shipped_check (ctx_edit (2, 0)%N ex_parent_array (emit_ctx ex_doc)) (emit_root ex_doc) = Accept
   /\ shipped_spec (ctx_edit (2, 0)%N ex_parent_array (emit_ctx ex_doc)) (emit_root ex_doc) = false.
 Proof.
   split; [|vm_compute; auto].
-  apply (M_page ex_doc (1, 0)%N (2, 0)%N _ ex_parent_array).
+  eapply (M_page true ex_doc (1, 0)%N (2, 0)%N).
   - left. reflexivity.
   - apply LV_parent_direct; reflexivity.
 Qed.
 Definition ex_bad_numtree : edit := ESet (B "PageLabels") (ODict [(B "Nums", OArr [OStr (B "a"); ORef 7 0])]).
 Lemma any_typed_predicates_unchecked :
-  mutation ex_doc (emit_ctx ex_doc, apply_edit ex_bad_numtree (emit_root ex_doc))
+  mutation true ex_doc (emit_ctx ex_doc, apply_edit ex_bad_numtree (emit_root ex_doc))
   /\ shipped_check (emit_ctx ex_doc) (apply_edit ex_bad_numtree (emit_root ex_doc)) = Accept
   /\ shipped_spec (emit_ctx ex_doc) (apply_edit ex_bad_numtree (emit_root ex_doc)) = false.
 Proof.
   split; [|vm_compute; auto].
-  apply M_cat. apply (CV_value _ (B "PageLabels") VNumTree); [vm_compute; tauto|reflexivity|vm_compute; reflexivity].
+  apply M_cat. apply (CV_value true _ (B "PageLabels") VNumTree); [left; reflexivity|in_tac|reflexivity|vm_compute; reflexivity].
 Qed.
 
 (* (b) repaired in number_tree.rs (f94edb9): the pinned predicate read the pairs from /Names *)
